@@ -712,7 +712,7 @@ class BlockDownloadStream(io.RawIOBase):
         if self._done:
             raise RuntimeError("All expected data has already been transmitted")
         # Can send up to 7 bytes at a time
-        data = b[0:7]
+        data = bytes(b[0:7])
         if self.size is not None and self.pos + len(data) >= self.size:
             # This is the last data to be transmitted based on expected size
             self.send(data, end=True)
